@@ -28,6 +28,8 @@ structure ParamD where
 
 /-- a resolver callable as data: its signature (`inspectable = false`: `inspect.signature` raises `ValueError`) -/
 structure ResolverD where
+  /-- `callable(resolver)`; a non-callable object in a resolver slot -/
+  callable : Bool := true
   inspectable : Bool := true
   params : List ParamD := []
   deriving DecidableEq, Repr, Inhabited
